@@ -25,7 +25,8 @@ ENUM_LEN = {"quick": 3, "thorough": 4}
 PROBES = ["offset_after_reonset", "inset_after_offset", "same_name_different_value", "two_markers_one_name_one_timepoint",
           "case_variant_names", "delay_shifted_marker", "equal_onset_rows", "rows_shuffled", "scope_left_open_at_end",
           "unmatched_reported", "enumerated_short_history", "file_level_runs", "api_level_runs", "concurrent_order_matters",
-          "def_expand_spelling", "noise_error_rows", "validator_object_reused", "marker_row_with_warning_only_tag"]
+          "def_expand_spelling", "noise_error_rows", "validator_object_reused", "marker_row_with_warning_only_tag",
+          "temporal_issue_row_label_checked"]
 RULE = ("Runs 0..N-1 enumerate every history of up to 3 (quick) / 4 (thorough) single-marker time points over "
         "{Onset,Offset,Inset} x {A, B/3} (exhaustive floor); the other runs are seeded histories of 2-10 time points with "
         "1-3 markers each over 1-3 definition names in plain / valued / case-variant spelling, driven through the API "
@@ -150,7 +151,13 @@ def generate(run_index, seed, tier):
                         # the shifted time must be exactly the time point it is meant to join (value x factor in floating
                         # point, as anyone computes it); spellings that cannot express this delay exactly are not used
                         unit, val = "s", "%.12g" % delta
-                    carried.setdefault(src, []).append("(Def/%s, %s, Delay/%s %s)" % (name, kind, val, unit))
+                    # tag names are case-insensitive; the Delay tag may stand first, in the middle or last in its group
+                    dl = "%s/%s %s" % (g.pick(["Delay", "Delay", "Delay", "delay", "DELAY"]), val, unit)
+                    form = g.pick(["(Def/%s, %s, %s)", "(Def/%s, %s, %s)", "(%s, Def/%s, %s)", "(Def/%s, %s, %s)"])
+                    if form.startswith("(%s"):
+                        carried.setdefault(src, []).append(form % (dl, name, kind))
+                    else:
+                        carried.setdefault(src, []).append(form % (name, kind, dl) if g.chance(0.7) else "(Def/%s, %s, %s)" % (name, dl, kind))
                 else:
                     mine.append(_marker_text(kind, name, expanded=g.chance(0.15)))
             own.append(mine)
@@ -321,7 +328,7 @@ def _timepoints_from_rows(rows):
             if km is None or dm is None:
                 continue
             t = t0
-            lm = re.search(r"Delay/([0-9.eE+-]+) (\w+)", part)
+            lm = re.search(r"Delay/([0-9.eE+-]+) (\w+)", part, re.IGNORECASE)
             if lm:
                 t = t0 + float(lm.group(1)) * UNIT_FACTOR[lm.group(2)]
             tps.setdefault(round(t, 6), []).append((km.group(1), dm.group(1)))
@@ -394,6 +401,35 @@ def execute(sc, script=None):
                  "file-raises-%s" % type(e).__name__)
             return _result(sc, violations, probes, trace, nontrivial)
         got, other = _classify(issues)
+        # row labels (1-based, header counted): an unmatched-marker issue names a row that belongs to the time point where a
+        # marker of that kind and name takes effect - a row with that onset, or the row that carries the delayed marker
+        if not sc.get("prev_rows"):
+            where = {}          # (kind, name) -> set of allowed file rows
+            by_time = {}        # effective time -> rows that belong to that time point (own onset, or carrying a group that lands there)
+            marks = []
+            for ri, (onset, hed) in enumerate(sc["rows"]):
+                by_time.setdefault(round(float(onset), 6), set()).add(ri + 2)
+                for part in _split_top(hed):
+                    t = float(onset)
+                    lm = re.search(r"Delay/([0-9.eE+-]+) (\w+)", part, re.IGNORECASE)
+                    if lm and part.startswith("("):
+                        t += float(lm.group(1)) * UNIT_FACTOR[lm.group(2)]
+                        by_time.setdefault(round(t, 6), set()).add(ri + 2)
+                    km = re.search(r"(?<![\w-])(Onset|Offset|Inset)(?![\w-])", part)
+                    dm = re.search(r"Def(?:-expand)?/([^,()\s]+)", part, re.IGNORECASE)
+                    if part.startswith("(") and km and dm:
+                        marks.append(((km.group(1).lower(), dm.group(1).casefold()), round(t, 6)))
+            for key, t in marks:
+                where.setdefault(key, set()).update(by_time.get(t, set()))
+            for i in issues:
+                one, _o = _classify([i])
+                if len(one) == 1 and one[0][0] in ("offset", "inset") and i.get("ec_row") is not None:
+                    probe("temporal_issue_row_label_checked")
+                    if i.get("ec_row") not in where.get(one[0], set()):
+                        viol("row-label", "the %s issue for %r is labelled row %r, but such a marker only occurs in / takes effect "
+                             "with rows %s of %s" % (one[0][0], one[0][1], i.get("ec_row"), sorted(where.get(one[0], ())), sc["rows"]),
+                             "temporal-issue-row-label")
+                        break
         other = [o for o in other if o not in ("ONSETS_UNORDERED", "TAG_EXPRESSION_REPEATED")]
         trace.append([list(got), other])
         if any(o.startswith("TEMPORAL_TAG_ERROR") for o in other):
@@ -401,7 +437,7 @@ def execute(sc, script=None):
                  "file-unclassified-issue")
         if len({r[0] for r in sc["rows"]}) < len(sc["rows"]):
             probe("equal_onset_rows")
-        if any("Delay/" in r[1] for r in sc["rows"]):
+        if any("delay/" in r[1].lower() for r in sc["rows"]):
             probe("delay_shifted_marker")
         if sc.get("shuffle"):
             probe("rows_shuffled")
